@@ -100,12 +100,15 @@ func (v *memoryView) formatMemLine(ln memLine) string {
 	var sb strings.Builder
 
 	i := 0
-	for a := ln.addr; a < ln.addr+bytesPerLine; a++ {
+	// Offsets are iterated instead of addresses as the address behind the last
+	// line of the address space is not representable.
+	for diff := model.Addr(0); diff < bytesPerLine; diff++ {
+		a := ln.addr + diff
 		if a != ln.addr {
 			sb.WriteByte(' ')
 		}
 
-		if diff := (a - ln.addr); diff != 0 && diff%bytesSpace == 0 {
+		if diff != 0 && diff%bytesSpace == 0 {
 			sb.WriteString("  ")
 		}
 
